@@ -9,6 +9,29 @@ from crosshair.tracers import NoTracing, ResumedTracing
 from crosshair.util import CrossHairValue
 
 PINNED = []  # (what, where) records of concretisations on the current path; reset by the driver per path
+PIN_CACHE = {}  # (decision nodes of the path prefix, pin index) -> model values chosen the first time
+PIN_COUNT = [0]
+PIN_STATS = [0]
+
+
+def stable_values(space, exprs):
+    """Model values for `exprs` under the current path condition, stable across re-executions of the same path prefix.
+
+    A pin adds 'expr == value' without a decision node, so every later decision depends on the value; CrossHair
+    re-executes each path prefix many times and a different model (solver timing) would make the run non-deterministic.
+    The first choice is therefore remembered per (prefix of decision nodes, pin index)."""
+    key = (tuple(id(n) for n in space.choices_made), id(getattr(space, "_search_position", None)), PIN_COUNT[0])
+    PIN_COUNT[0] += 1
+    hit = PIN_CACHE.get(key)
+    if hit is not None and len(hit) == len(exprs):
+        PIN_STATS[0] += 1
+        return hit
+    if space.solver.check() != z3.sat:
+        raise RuntimeError("pin on infeasible/unknown path")
+    mdl = space.solver.model()
+    vals = [mdl.eval(e, model_completion=True) for e in exprs]
+    PIN_CACHE[key] = vals
+    return vals
 
 
 def _decode_z3_string(v):
@@ -346,9 +369,7 @@ def pin(x, where=""):
             x.var = z3.simplify(x.var)
             if z3.is_string_value(x.var):
                 return _decode_z3_string(x.var)
-            if space.solver.check() != z3.sat:
-                raise RuntimeError("pin on infeasible/unknown path")
-            val = space.solver.model().eval(x.var, model_completion=True)
+            val = stable_values(space, [x.var])[0]
             space.add(x.var == val)
             PINNED.append(("str", where))
             x.var = val
@@ -362,9 +383,7 @@ def pin(x, where=""):
                 return True
             if z3.is_false(v):
                 return False
-            if space.solver.check() != z3.sat:
-                raise RuntimeError("pin on infeasible/unknown path")
-            val = space.solver.model().eval(x.var, model_completion=True)
+            val = stable_values(space, [x.var])[0]
             space.add(x.var == val)
             PINNED.append(("int", where))
             return val.as_long() if z3.is_int_value(val) else z3.is_true(val)
